@@ -56,7 +56,10 @@ constexpr uint64_t kNullEntity = ~0ull;
 
 enum : uint32_t { kCreate = 1, kCopy = 2, kMove = 4, kMoveCtor = 8, kDestroy = 16 };
 
-uint64_t defaultTok(int c) { return 1000u + static_cast<uint64_t>(c); }
+uint64_t defaultTok(int c) { return 1000u + static_cast<uint64_t>(c); }      // what the create function writes
+// the bytes of `default_value` carry a DIFFERENT token: with both a create function and a default value the
+// constructor's result must be what a new component holds, and the two are distinguishable
+uint64_t defaultValueTok(int c) { return 2000u + static_cast<uint64_t>(c); }
 
 std::mutex g_mutex;
 std::vector<std::string> g_errors;
@@ -168,7 +171,7 @@ struct Driver {
                 info.functions = tableOf(c, mask[c]);
                 if (dv[c]) {
                     defaults[c].assign(kSize[c], 0);
-                    writeTok(c, defaults[c].data(), defaultTok(c));
+                    writeTok(c, defaults[c].data(), defaultValueTok(c));
                     info.default_value = defaults[c].data();
                 }
                 ids[c] = registerComponent(info);
